@@ -12,21 +12,20 @@ open Claripy.FP Claripy.FP.Fold
 /-- `float(decimal string of num/den)`: correctly rounded binary64 -/
 def pyFloatOfRat (num den : Nat) : Nat := roundRat D .RNE false num den
 
-/-- `2 ** e` as the float it becomes in the product: an `int` for `e ≥ 0` (converted exactly or OverflowError),
-a float for `e < 0` -/
-def pyPow2 (e : Int) : Nat :=
-  if e ≥ 0 then roundRat D .RNE false (2 ^ e.toNat) 1 else roundRat D .RNE false 1 (2 ^ (-e).toNat)
+/-- `2 ** e` for `e = hi - lo` as the float it becomes in the product: an `int` for `e ≥ 0` (converted exactly), a float for `e < 0` -/
+def pyPow2 (hi lo : Nat) : Nat :=
+  if hi ≥ lo then roundRat D .RNE false (2 ^ (hi - lo)) 1 else roundRat D .RNE false 1 (2 ^ (lo - hi))
 
-/-- `_abstract_fp_val` → the Python float (binary64 bits) returned for a numeral with bit pattern `b` of format `f` -/
+/-- `_abstract_fp_val` → the Python float (binary64 bits) returned for a numeral with bit pattern `b` of format `f`.
+Z3 reports the unbiased exponent `max E 1 - bias` (`emin` for subnormals) and the significand `sig / 2^(sb-1)`. -/
 def abstractFpVal (f : Fmt) (b : Nat) : Nat :=
   if isNaN f b then D.nanBits
   else if isInf f b then mkBits D (signOf f b) D.infMag
   else if isZero f b then mkBits D (signOf f b) 0
   else
     let mant := pyFloatOfRat (sigOf f (magOf f b)) (2 ^ f.mbits)
-    let e : Int := expOf f (magOf f b) + (f.mbits : Int)
     let sm := if signOf f b then neg D mant else mant          -- `fp_sign * fp_mantissa` (±1 * float)
-    pyMul sm (pyPow2 e)
+    pyMul sm (pyPow2 (max (magOf f b / 2 ^ f.mbits) 1) f.bias)  -- `* (2 ** fp_exp)`
 
 /-- `_abstract_fp_encoded_val`: sign, biased exponent and trailing significand fields reassembled -/
 def abstractFpEncodedVal (f : Fmt) (b : Nat) : Nat :=
